@@ -501,6 +501,93 @@ def direction_b(ck, dev, pdev):
         ck.sample({"bytes": bytes(big["bytes"]), "variant": "random deep tree (direction B)", "read_back": repr(big["_obs"])[:400]})
 
 
+# ------------------------------------------------------------------------------------------------ beyond TLC's bounds
+def beyond_bounds(ck):
+    """two clauses of C01 that the enumerated space cannot hold - "nested to any depth" and integers beyond the 32 bits TLC
+    counts with - evaluated directly on the real readers (stream and `n 0 obj` variants, BUFSIZ 5 and 4096)"""
+    # (a) nesting depth: arrays, dictionaries and both alternating, 50 .. 20000 levels; the result is walked iteratively
+    depths = (50, 1500, 20000) if ck.tier == "quick" else (50, 1500, 20000, 100000)
+    for depth in depths:
+        for kind in ("arr", "dict", "mixed"):
+            opener = {"arr": [b"["], "dict": [b"<</K "], "mixed": [b"[", b"<</K "]}[kind]
+            closer = {"arr": [b"]"], "dict": [b">>"], "mixed": [b"]", b">>"]}[kind]
+            data = b"".join(opener[i % len(opener)] for i in range(depth)) + b"7" \
+                + b"".join(closer[i % len(closer)] for i in reversed(range(depth))) + b" "
+            for how, B in (("stream", 4096), ("stream", 5), ("doc", 4096)):
+                rp = {"data": data[:200] + b"..." if len(data) > 400 else data, "depth": depth, "kind": kind, "how": how, "bufsiz": B}
+                try:
+                    if how == "stream":
+                        p = stream_parser(B)(data)
+                        (_, o) = p.nextobject()
+                    else:
+                        o = read_doc_raw(data)
+                except BaseException as e:      # noqa: BLE001
+                    ck.violation("nesting:%s:%s" % (how, type(e).__name__), "%d nested %s levels raise %s in the %s reader"
+                                 % (depth, kind, type(e).__name__, how), rp)
+                    continue
+                n = 0
+                while isinstance(o, (list, dict)):
+                    if isinstance(o, list):
+                        if len(o) != 1:
+                            break
+                        o = o[0]
+                    else:
+                        if list(o) != ["K"]:
+                            break
+                        o = o["K"]
+                    n += 1
+                if n != depth or o != 7:
+                    ck.violation("nesting:%s:value" % how, "%d nested %s levels read back with %d levels around %r" % (depth, kind, n, o), rp)
+                ck.case(1, ("nest", depth, kind, how, B))
+    # (b) integers and reals that need more than 32 / 53 bits
+    big = [2 ** 31, 2 ** 32 + 1, 2 ** 53 + 1, -(2 ** 53) - 1, 2 ** 63, 2 ** 64 + 1, 10 ** 30 + 1, -(10 ** 30) - 1,
+           123456789012345678901234567890123456789]
+    for v in big:
+        for spell in (b"%d", b"+%d", b"000%d"):
+            txt = spell % abs(v) if v >= 0 else b"-" + (spell.replace(b"+", b"") % abs(v))
+            for ctx in (b"%s ", b"[%s]", b"<</K %s>>", b"[1 %s 2]"):
+                data = ctx % txt
+                for how, B in (("stream", 4096), ("stream", 5), ("doc", 4096)):
+                    try:
+                        o = stream_parser(B)(data + b" ").nextobject()[1] if how == "stream" else read_doc_raw(data)
+                    except BaseException as e:      # noqa: BLE001
+                        o = e
+                    got = o
+                    if isinstance(o, list):
+                        got = o[-2] if len(o) == 3 else o[0] if o else None
+                    elif isinstance(o, dict):
+                        got = o.get("K")
+                    if not (isinstance(got, int) and not isinstance(got, bool) and got == v):
+                        ck.violation("big-integer:" + how, "integer %d written %r reads back as %r (%s reader)" % (v, data, got, how),
+                                     {"data": data, "how": how, "bufsiz": B})
+                    ck.case(1, ("big", v, spell, ctx, how, B))
+
+
+def stream_parser(B):
+    c = _stream_cls.get(B)
+    if c is None:
+        c = _stream_cls[B] = type("SP%d" % B, (PDFStreamParser,), {"BUFSIZ": B})
+    return c
+
+
+def read_doc_raw(body):
+    """the object written as `3 0 obj <body> endobj` in a small file, fetched with getobj (not projected)"""
+    out = io.BytesIO()
+    out.write(b"%PDF-1.4\n")
+    offs = {}
+    objs = {1: b"<< /Type /Catalog /Pages 2 0 R >>", 2: b"<< /Type /Pages /Kids [] /Count 0 >>", 3: body}
+    for n, b in objs.items():
+        offs[n] = out.tell()
+        out.write(b"%d 0 obj " % n + b + b" endobj \n")
+    x = out.tell()
+    out.write(b"xref\n0 4\n0000000000 65535 f \n")
+    for n in range(1, 4):
+        out.write(b"%010d 00000 n \n" % offs[n])
+    out.write(b"trailer\n<< /Size 4 /Root 1 0 R >>\nstartxref\n%d\n%%%%EOF\n" % x)
+    doc = PDFDocument(PDFParser(io.BytesIO(out.getvalue())), caching=False)
+    return doc.getobj(3)
+
+
 def run(ck):
     dev = [d for d in active("lex") if d in LEX_DEVS]
     pdev = [d for d in active("obj") if d in PARSE_DEVS]
@@ -515,6 +602,7 @@ def run(ck):
                       "a dictionary entry whose value is null is equivalent to an absent entry (ISO 32000-1 7.3.7)"]
     direction_a(ck, dev, pdev)
     direction_b(ck, dev, pdev)
+    beyond_bounds(ck)
     ck.exhaustive = True
 
 
